@@ -27,6 +27,7 @@ type simCtx struct {
 	registered  bool
 }
 
+//go:norace
 func (c *simCtx) Deadline() (time.Time, bool) {
 	if c.hasDeadline {
 		return simEpoch.Add(c.deadline), true
@@ -34,13 +35,16 @@ func (c *simCtx) Deadline() (time.Time, bool) {
 	return c.parent.Deadline()
 }
 
+//go:norace
 func (c *simCtx) Done() <-chan struct{} { return c.done }
 
 //go:norace
 func (c *simCtx) Err() error { return c.err }
 
+//go:norace
 func (c *simCtx) Value(key interface{}) interface{} { return c.parent.Value(key) }
 
+//go:norace
 func (c *simCtx) String() string { return "simrt.ctx#" + itoa(c.seq) }
 
 //go:norace
